@@ -182,6 +182,71 @@ theorem index_loss_recorded {σ : St} (op : Op) {x : XIndex} (hx : x ∈ σ.idxs
         exact (hgone x hx rfl).elim
     · exact (hgone x hx rfl).elim
   | cache => exact (keep ⟨x, by simp only [step]; split <;> exact hx, rfl⟩).elim
+  | offload => exact (keep ⟨x, hx, rfl⟩).elim
+  | rollback => exact (keep ⟨x, hx, rfl⟩).elim
+
+/-- **offloading_partition_keeps_shards**: while the partition is being offloaded to another
+store (`PreOffload` done, `bgrEnabled = false`) no step — in particular no iteration of the
+retention service's shard loop — takes a shard object out of the store: `DeleteShard` is refused
+with `PtIsAlreadyMigrating`. -/
+theorem offloading_partition_keeps_shards {σ : St} (hb : σ.bgr = false) (op : Op) {s : XShard} (hs : s ∈ σ.shards) :
+    ∃ s' ∈ (step σ op).shards, s'.sid = s.sid := by
+  cases op with
+  | tick dt => exact ⟨s, hs, rfl⟩
+  | alter d => exact ⟨s, hs, rfl⟩
+  | load sid =>
+    refine ⟨s, ?_, rfl⟩
+    simp only [step]
+    unfold loadShard
+    split
+    · exact hs
+    · split
+      · exact hs
+      · split
+        · exact List.mem_append_left _ hs
+        · split
+          · exact hs
+          · exact List.mem_append_left _ hs
+  | close sid =>
+    refine ⟨_, List.mem_map_of_mem hs, ?_⟩
+    split <;> rfl
+  | refreshS ok =>
+    simp only [step]
+    split
+    · split
+      · exact ⟨_, List.mem_map_of_mem hs, updShard_sid _ _⟩
+      · exact ⟨s, hs, rfl⟩
+    · exact ⟨s, hs, rfl⟩
+  | refreshI ok =>
+    simp only [step]
+    split
+    · split <;> exact ⟨s, hs, rfl⟩
+    · exact ⟨s, hs, rfl⟩
+  | collectS => simp only [step]; split <;> exact ⟨s, hs, rfl⟩
+  | procS o =>
+    simp only [step]
+    split
+    · rename_i q rest _ _
+      have hr : delSRes o q.sid σ.shards σ.bgr = .failed ∨ delSRes o q.sid σ.shards σ.bgr = .migrating := by
+        unfold delSRes
+        rw [hb]
+        by_cases hd : o.delOk = true <;> simp [hd]
+      simp only [procS]
+      rcases hr with hr | hr <;> simp only [hr] <;> exact ⟨s, by simpa using hs, rfl⟩
+    · exact ⟨s, hs, rfl⟩
+  | collectI => simp only [step]; split <;> exact ⟨s, hs, rfl⟩
+  | procI o =>
+    simp only [step]
+    split
+    · simp only [procI]
+      split
+      · refine ⟨_, List.mem_map_of_mem hs, ?_⟩
+        split <;> rfl
+      · exact ⟨s, hs, rfl⟩
+    · exact ⟨s, hs, rfl⟩
+  | cache => simp only [step]; split <;> exact ⟨s, hs, rfl⟩
+  | offload => exact ⟨s, hs, rfl⟩
+  | rollback => exact ⟨s, hs, rfl⟩
 
 /-! ## 3. one run: raising the duration before the deletion keeps the index -/
 
